@@ -212,4 +212,64 @@ mod verif_tape_native {
         }
         assert!(bad == 0, "{} tape run(s) deviate from the standard waveform", bad);
     }
+
+    /// C10 (block reader, used by the fast loader): every block of every image, abandoned after every
+    /// possible number of consumed bytes (0..=len), must deliver exactly its payload bytes, and the next
+    /// next_block() must land exactly on the following block (then on the end of the tape)
+    #[test]
+    fn reader_histories() {
+        let tapes: Vec<Vec<Vec<u8>>> = vec![
+            vec![vec![0x00, 1, 2, 3, 0xFF, 0x55], vec![0xFF, 0xAA, 0x01, 0x80, 0x00]],
+            vec![
+                (0..128u32).map(|i| (i * 5 + 1) as u8).collect::<Vec<u8>>(),
+                (0..300u32).map(|i| (i * 3 + 2) as u8).collect::<Vec<u8>>(),
+                (0..384u32).map(|i| (i * 11 + 7) as u8).collect::<Vec<u8>>(),
+                (0..129u32).map(|i| (i * 13 + 5) as u8).collect::<Vec<u8>>(),
+                vec![0xFF, 0x12],
+            ],
+        ];
+        let mut bad = 0;
+        for (ti, blocks) in tapes.iter().enumerate() {
+            for bi in 0..blocks.len() {
+                'k: for k in 0..=blocks[bi].len() {
+                    let mut tape = Tap::from_asset(BufferCursor::new(image(blocks))).unwrap();
+                    // consume the blocks before `bi` completely, `bi` up to k bytes, the rest completely
+                    for (j, b) in blocks.iter().enumerate() {
+                        match tape.next_block() {
+                            Ok(true) => {}
+                            _ => {
+                                println!("MISMATCH reader tape={} block={} abandon_after={}: next_block() does not find block {}", ti, bi, k, j);
+                                bad += 1;
+                                break 'k;
+                            }
+                        }
+                        let take = if j == bi { k } else { b.len() };
+                        for n in 0..take {
+                            match tape.next_block_byte() {
+                                Ok(Some(v)) if v == b[n] => {}
+                                other => {
+                                    println!("MISMATCH reader tape={} block={} abandon_after={}: byte {} of block {} is {:?}, image has {}",
+                                        ti, bi, k, n, j, other.ok(), b[n]);
+                                    bad += 1;
+                                    break 'k;
+                                }
+                            }
+                        }
+                        if take == b.len() && j != bi {
+                            if !matches!(tape.next_block_byte(), Ok(None)) {
+                                println!("MISMATCH reader tape={} block={} abandon_after={}: block {} delivers more than its {} bytes", ti, bi, k, j, b.len());
+                                bad += 1;
+                                break 'k;
+                            }
+                        }
+                    }
+                    if !matches!(tape.next_block(), Ok(false)) {
+                        println!("MISMATCH reader tape={} block={} abandon_after={}: a block is found behind the last one", ti, bi, k);
+                        bad += 1;
+                    }
+                }
+            }
+        }
+        assert!(bad == 0, "{} reader histories deviate from the image", bad);
+    }
 }
